@@ -646,8 +646,18 @@ Definition check (s : session) : bool :=
 # --------------------------------------------------------------------------------------------------
 # judging one session
 # --------------------------------------------------------------------------------------------------
+def brief(d, n=60):
+    """(line:char of the range start, severity, code, message prefix) of a canonical diagnostic"""
+    try:
+        st = json.loads(d[0])["start"]
+        at = "%d:%d" % (st["line"], st["character"])
+    except Exception:
+        at = "?"
+    return (at, d[1], d[2], d[3][:n])
+
+
 def short(view):
-    return {u.rsplit("/", 1)[-1]: [(d[1], d[2], d[3][:40]) for d in ds] for u, ds in view.items()}
+    return {u.rsplit("/", 1)[-1]: [brief(d, 40) for d in ds] for u, ds in view.items()}
 
 
 def judge(sess, run, predicted, points):
@@ -673,8 +683,8 @@ def judge(sess, run, predicted, points):
         # ORACLE: live client view == freshly started server
         if rec["view"] != rec["fresh"]:
             uris = sorted(set(rec["view"]) | set(rec["fresh"]))
-            diff = {u.rsplit("/", 1)[-1]: {"client": [(d[1], d[2], d[3][:60]) for d in rec["view"].get(u, [])],
-                                           "fresh": [(d[1], d[2], d[3][:60]) for d in rec["fresh"].get(u, [])]}
+            diff = {u.rsplit("/", 1)[-1]: {"client": [brief(d) for d in rec["view"].get(u, [])],
+                                           "fresh": [brief(d) for d in rec["fresh"].get(u, [])]}
                     for u in uris if rec["view"].get(u, []) != rec["fresh"].get(u, [])}
             problems.append({"kind": "oracle", "step": rec["step"], "op": rec["op"],
                              "detail": "client view differs from a freshly started server: %s" % json.dumps(diff)[:900]})
@@ -701,12 +711,12 @@ def judge(sess, run, predicted, points):
                     continue
                 problems.append({"kind": "model", "step": rec["step"], "op": rec["op"],
                                  "detail": "model predicts a notification for %s that was not sent: %s"
-                                           % (u.rsplit("/", 1)[-1], [(d[1], d[2], d[3][:50]) for d in content])})
+                                           % (u.rsplit("/", 1)[-1], [brief(d, 50) for d in content])})
             elif obs[u] != want:
                 problems.append({"kind": "model", "step": rec["step"], "op": rec["op"],
                                  "detail": "notification for %s differs from the model: wire %s model %s"
-                                           % (u.rsplit("/", 1)[-1], [(d[1], d[2], d[3][:50]) for d in obs[u]],
-                                              [(d[1], d[2], d[3][:50]) for d in want])})
+                                           % (u.rsplit("/", 1)[-1], [brief(d, 50) for d in obs[u]],
+                                              [brief(d, 50) for d in want])})
         for u, content in obs.items():
             if u in pred:
                 continue
@@ -715,7 +725,7 @@ def judge(sess, run, predicted, points):
                 continue
             problems.append({"kind": "model", "step": rec["step"], "op": rec["op"],
                              "detail": "notification for %s not predicted by the model changes the client view: %s"
-                                       % (u.rsplit("/", 1)[-1], [(d[1], d[2], d[3][:50]) for d in content])})
+                                       % (u.rsplit("/", 1)[-1], [brief(d, 50) for d in content])})
     return problems, stats
 
 
@@ -727,7 +737,21 @@ def session_key(sess):
 # --------------------------------------------------------------------------------------------------
 def main(tier, replay=None):
     res = Result(PROP, tier, level="proof")
-    d = rundir(PROP)
+    top = rundir(PROP)
+    # one scratch directory per process (several checks may run at the same time); stale ones are removed
+    for old in os.listdir(top):
+        q = os.path.join(top, old)
+        if re.match(r"r\d+$", old) and time.time() - os.path.getmtime(q) > 7200:
+            shutil.rmtree(q, ignore_errors=True)
+    d = os.path.join(top, "r%d" % os.getpid())
+    os.makedirs(d, exist_ok=True)
+    try:
+        return run_check(res, tier, replay, d)
+    finally:
+        shutil.rmtree(d, ignore_errors=True)
+
+
+def run_check(res, tier, replay, d):
     phases = {}
     t_phase = time.time()
     proof_stage(res, PROP, thorough=(tier == "thorough"))
@@ -755,7 +779,7 @@ def main(tier, replay=None):
         corpus = os.path.join(VERIF, "corpus", "C14.sessions.json")
         if os.path.exists(corpus):
             sessions += json.load(open(corpus))["sessions"]
-        n = 1500 if tier == "thorough" else 40
+        n = 1000 if tier == "thorough" else 40
         hi = 25
         rng = random.Random(seed() * 7919 + (1 if tier == "thorough" else 0))
         for i in range(n):
